@@ -172,7 +172,11 @@ def cmd_check(pid, tier, seed):
             continue
         if r["status"] == "undecided":
             undecided.append("harness %s: %s" % (name, r.get("reason", "")))
-        unsat = [c for c in cov if c["verdict"] != "satisfied"]
+        # vacuity guard: the cover points recorded for this harness on the reference run (lib/expected.json) must be
+        # satisfied; a shared check function may carry cover points that a small instance cannot reach - those were
+        # unsatisfiable on the reference run as well and are not demanded
+        wanted_covers = set(h.get("covers", []))
+        unsat = [c for c in cov if c["verdict"] != "satisfied" and (not wanted_covers or c["name"] in wanted_covers)]
         covers_total += len(cov)
         covers_sat += len(cov) - len(unsat)
         if unsat and r["status"] == "ok":
